@@ -142,6 +142,38 @@ class Gen:
             st['code'] = m['code']
         return bool(m)
 
+    INNER_KINDS = ('set', 'append', 'merge', 'default', 'py', 'copy')
+
+    def call_step(self, foreach=True):
+        """pypyr.steps.call of a small group, normally under foreach: when each call returns the step
+        restores ITS OWN current item into context['i']."""
+        rng = self.rng
+        st = {'kind': 'call', 'in': [], 'group': []}
+        had_i = 'i' in self.known
+        if foreach:
+            st['foreach'] = [rng.randint(0, 9) if rng.random() < 0.7 else {'l': [rng.randint(0, 9)]}
+                             for _ in range(rng.randint(2, 3))]
+        # inner steps never (re)bind i: reset_context_counters runs in a `finally`, so after a failing
+        # inner step the real i is the step's item again - a path the flat op list does not model
+        self.known = [k for k in self.known if k != 'i']
+        self.no_foreach = True
+        for _ in range(rng.randint(1, 2)):
+            for _try in range(20):
+                inner = self.step()
+                if inner['kind'] in self.INNER_KINDS and not inner.get('retry'):
+                    break
+            else:
+                inner = {'kind': 'set', 'in': [], 'pairs': [['e', 1]]}
+            inner.pop('foreach', None)
+            self.known = [k for k in self.known if k != 'i']
+            st['group'].append(inner)
+        self.no_foreach = False
+        self.known = [k for k in self.known if k != 'i'] + (['i'] if had_i or foreach else [])
+        # what the iteration saw: keep i (by value) so that a wrong counter shows in the context too
+        st['group'].append({'kind': 'append', 'in': [], 'list': 'seen', 'mode': 'key', 'addMe': {'ref': ['copy', 'i']}}
+                           if foreach else {'kind': 'set', 'in': [], 'pairs': [['seen', 1]]})
+        return st
+
     def step(self):
         rng = self.rng
         if self.pending:
@@ -181,7 +213,7 @@ class Gen:
 
         # (pypyr.steps.set pops its own 'set' argument, so under foreach its 2nd iteration fails:
         #  not interesting here)
-        if kind != 'set' and rng.random() < 0.18:
+        if kind != 'set' and not getattr(self, 'no_foreach', False) and rng.random() < 0.18:
             st['foreach'] = [self.arg_tree(1) for _ in range(rng.randint(1, 3))]
             bound('i', any(self.taints(t) for t in st['foreach']))
             self.types['i'] = self.type_of(st['foreach'][-1])
@@ -331,14 +363,25 @@ def gen_case(rng, tier='quick', threads=False):
             steps[at:at] = [{'kind': 'configvars'},
                             {'kind': 'add', 'in': [], 'set': 'vs', 'addMe': rng.randint(10, 19)}]
         case[pname] = steps
+    same = threads and rng.random() < 0.5
+    if same or ((not threads) and rng.random() < 0.12):
+        # a loop step that calls a group (same-pipeline threads: both runs go through the SAME cached step)
+        g = Gen(rng, True)
+        g.known = [k for k, _ in dict_in]
+        g.types = {k: g.type_of(v) for k, v in dict_in}
+        at = rng.randint(0, len(case['main']))
+        case['main'].insert(at, g.call_step(foreach=same or rng.random() < 0.8))
+        if same:
+            case['main'] = case['main'][max(0, at - 1):at + 2]
     if threads:
-        n0, n1 = len(case['main']), len(case['other'])
+        blocks = [len(L.pipeline_ops(case, p, True)) for p in L.thread_pipes({'threads': {'same': same}})]
+        n0, n1 = blocks
         scheds = []
         for _ in range(3):
             s = [0] * n0 + [1] * n1
             rng.shuffle(s)
             scheds.append(s)
-        case['threads'] = {'schedules': scheds}
+        case['threads'] = {'schedules': scheds, 'same': bool(same)}
     else:
         case['threads'] = None
     return case
